@@ -1242,7 +1242,17 @@ class CellsInputDataMixin(BaseNodeParser):
     def set_values(self, data):
         cells = self.impl.cells[self.cellsname]
         for key, val in data.items():
-            cells.set_value(key, val)
+            if val is None and not cells.get_property("allow_none"):
+                # Assigned while None was allowed: an input of the model
+                # all the same
+                allow_none = cells.allow_none
+                cells.allow_none = True
+                try:
+                    cells.set_value(key, val)
+                finally:
+                    cells.allow_none = allow_none
+            else:
+                cells.set_value(key, val)
 
     def load_pickledata(self):
         if ziputil.exists(self.datapath):
